@@ -6,6 +6,8 @@ import (
 	"fmt"
 	"io"
 	"net/http"
+	"os"
+	"path/filepath"
 	"sort"
 	"strconv"
 	"strings"
@@ -128,6 +130,7 @@ func runTargeters(tt *testing.T, tape *simrt.Tape, keep bool) (out simrt.Outcome
 			w.Arm(s)
 			skips[s] = tape.Biased(6, 1, 2)
 		}
+		bodies := kind == "http" && tape.Prob(1, 2)
 		// the source
 		var src bytes.Buffer
 		var tr vegeta.Targeter
@@ -135,7 +138,11 @@ func runTargeters(tt *testing.T, tape *simrt.Tape, keep bool) (out simrt.Outcome
 		switch kind {
 		case "http":
 			for i := 0; i < ntargets; i++ {
-				fmt.Fprintf(&src, "%s http://t/%d\nX-Idx: %d\nX-Two: a%d\n\n", c15Method(i), i, i, i)
+				fmt.Fprintf(&src, "%s http://t/%d\nX-Idx: %d\nX-Two: a%d\n", c15Method(i), i, i, i)
+				if bodies {
+					fmt.Fprintf(&src, "@%s\n", c15BodyFile(i)) // a body file, read while the targeter holds its lock
+				}
+				src.WriteString("\n")
 			}
 			rd.data = src.Bytes()
 			tr = vegeta.NewHTTPTargeter(rd, nil, nil)
@@ -180,7 +187,7 @@ func runTargeters(tt *testing.T, tape *simrt.Tape, keep bool) (out simrt.Outcome
 			}
 			wantHdr := fmt.Sprintf("X-Idx=%d;X-Two=a%d", idx, idx)
 			wantBody := ""
-			if kind == "json" {
+			if kind == "json" || bodies {
 				wantBody = "body-" + strconv.Itoa(idx)
 			}
 			if f[1] != c15Method(idx) || f[3] != wantHdr || f[4] != wantBody {
@@ -363,4 +370,20 @@ func runTargeters(tt *testing.T, tape *simrt.Tape, keep bool) (out simrt.Outcome
 		out.LogHash, out.LogText, out.Steps, out.Sig = w.Log.Hash(), w.Log.Text(), w.Step, w.Log.Hash()
 	}
 	return out
+}
+
+var c15Dir string
+
+// c15BodyFile returns the path of a real file holding "body-<i>" (created on first use, fixed-length directory name).
+func c15BodyFile(i int) string {
+	if c15Dir == "" {
+		c15Dir = filepath.Join(os.TempDir(), fmt.Sprintf("vsim-c15-%010d", os.Getpid()))
+		os.RemoveAll(c15Dir)
+		os.MkdirAll(c15Dir, 0o755)
+	}
+	p := filepath.Join(c15Dir, fmt.Sprintf("b%03d", i))
+	if _, err := os.Stat(p); err != nil {
+		os.WriteFile(p, []byte("body-"+strconv.Itoa(i)), 0o644)
+	}
+	return p
 }
